@@ -34,6 +34,22 @@ def handleLine (line : String) : String :=
       | [.atom pid] => String.intercalate " " ((ExecDrv.scopeOf pid).map Instr.str)
       | _ => "bad scope")
     | "names" => String.intercalate " " (Instr.all.map Instr.str)
+    -- `( registry PID NAME.. )`: the names registered by `InstructionSet::load`, against the part of the
+    -- model's table the property PID speaks about
+    | "registry" =>
+      (match rest with
+       | .atom pid :: names =>
+         let have_ := names.map Sx.toStr
+         let scope := (ExecDrv.scopeOf pid).map Instr.str
+         let missing := scope.filter fun n => !have_.contains n
+         -- a registered name the model does not know is unverified: it matters to the properties that quantify
+         -- over every instruction
+         let extra := if scope.length == Instr.all.length then have_.filter fun n => !(Instr.all.map Instr.str).contains n else []
+         if missing.isEmpty && extra.isEmpty then "ok N"
+         else
+           "no MISMATCH model= missing: " ++ String.intercalate "," missing ++ " extra: " ++ String.intercalate "," extra ++
+           (if missing.isEmpty then "" else " PROPFAIL " ++ pid ++ " not registered (the token is parsed as a NAME and does nothing): " ++ String.intercalate "," missing)
+       | _ => "bad registry")
     | _ => "bad kind " ++ kind
   | _ => "bad parse"
 
